@@ -669,6 +669,10 @@ class DCMotor(MotorBase):
                         self.no_load_electric_current)
                 )
 
+        if maximum_torque.value == 0:
+            self.electric_current = maximum_electric_current
+            return
+
         self.electric_current = Current(
             value=(
                 (maximum_electric_current - no_load_electric_current) *
